@@ -3,6 +3,7 @@
   Property theorems only; the invariant and its lemmas are in FileD/Lemmas/Core.lean.
 -/
 import FileD.Lemmas.Core
+import FileD.Lemmas.Sys
 import FileD.Spec.C01
 namespace FileD.PropsC01
 open FileD.Core
@@ -21,14 +22,8 @@ def Safe (s : State) : Prop :=
 /-- **C01 (full statement)**: every reachable state of every configuration is safe. -/
 def FrontierSafe : Prop := ∀ (hasDQ : Bool) (ops : List Op) (s : State), run (init hasDQ) ops = some s → Safe s
 
-/-- **C01, proved part**: without a dead queue, for every interleaving of readers, processors,
-    batch workers and flush timers (`ops` is any list), any batch sizes / worker counts / retry
-    and failure patterns: whenever the input has been told that `e` is committed, the output has
-    finished `e`, and every event read earlier from the same source and stream is finished or
-    was deliberately dropped. (Since the statement holds in the state right after each `commit`
-    op and `acked`, `gaveUp`, `dropped` only grow, it holds at the moment of the notification.) -/
-theorem frontier_safe_partial (ops : List Op) (s : State) (hr : run (init false) ops = some s) : Safe s := by
-  have inv := cinv_run cinv_init hr
+/-- the frontier property follows from the invariant of the commit path -/
+theorem safe_of_cinv {s : State} (inv : CInv s) : Safe s := by
   intro e he
   have hpre : ∃ rest, s.main.added = s.commits ++ rest := by
     refine ⟨s.main.committing ++ s.main.full.flatMap (·.evs) ++ s.main.cur, ?_⟩
@@ -45,6 +40,36 @@ theorem frontier_safe_partial (ops : List Op) (s : State) (hr : run (init false)
     have : e' ∈ s.main.done := by
       rw [← inv.loop]; apply List.mem_append_left; rw [hsplit]; exact List.mem_append_left _ h
     exact inv.doneFin e' this
+
+/-- **C01, proved part**: without a dead queue, for every interleaving of readers, processors,
+    batch workers and flush timers (`ops` is any list), any batch sizes / worker counts / retry
+    and failure patterns: whenever the input has been told that `e` is committed, the output has
+    finished `e`, and every event read earlier from the same source and stream is finished or
+    was deliberately dropped. (Since the statement holds in the state right after each `commit`
+    op and `acked`, `gaveUp`, `dropped` only grow, it holds at the moment of the notification.) -/
+theorem frontier_safe_partial (ops : List Op) (s : State) (hr : run (init false) ops = some s) : Safe s :=
+  safe_of_cinv (cinv_run cinv_init hr)
+
+/-- **C01 for the composed system** (commit path + one stream/processor machine per stream,
+    Model/Sys.lean): here `add` has NO hand-over guard — events reach the batcher whenever the
+    stream layer's `out` step fires — and the frontier property still holds for every
+    interleaving of both layers' steps. The order in which events of a stream reach the output
+    is no longer an assumption of the theorem; it is derived from the stream protocol. -/
+theorem sys_frontier_safe (ops : List Sys.Op) (s : Sys.State)
+    (hr : Sys.run (Sys.init false) ops = some s) : Safe s.core :=
+  safe_of_cinv (Sys.sinv_run Sys.sinv_init hr).cinv
+
+/-- non-vacuity of the composed theorem: put / attach / get / out through both layers, then
+    seal, send, commit -/
+example : ((Sys.run (Sys.init false)
+    [.put ⟨0, 1, 10⟩, .stream 0 .charge, .stream 0 .pop, .stream 0 .attach, .stream 0 (.get 1), .out ⟨0, 1, 10⟩,
+     .core (.sealB false 0), .core (.sendOk false 0 [⟨0, 1, 10⟩]), .core (.bcommit false 0),
+     .core (.commit ⟨0, 1, 10⟩)]).map (·.core.commits)) = some [⟨0, 1, 10⟩] := by decide
+
+/-- the composed system refuses to hand over event 2 while event 1 is still in hand -/
+example : Sys.run (Sys.init false)
+    [.put ⟨0, 1, 10⟩, .stream 0 .charge, .put ⟨0, 2, 20⟩, .stream 0 .pop, .stream 0 .attach, .stream 0 (.get 1),
+     .out ⟨0, 2, 20⟩] = none := by decide
 
 /-- corollary: if no batch is ever given up (the output retries for ever or exits the process on
     exhaustion — `fatal_on_failed_insert`), "finished" is literally "acknowledged" -/
